@@ -358,6 +358,24 @@ func (p *Path) toGoValue(a Value) (interface{}, bool) {
 		}
 		return fmt.Sprintf("0xc%06d", x.obj.id), true
 	case SliceV:
+		// a byte slice prints as its text (%s, %q of []byte)
+		if x.base != nil && x.base.obj != nil {
+			if at, ok := x.base.obj.typ.Underlying().(*types.Array); ok {
+				if w, _, isInt := intWidth(at.Elem()); isInt && w == 8 {
+					es := p.sliceElems(x)
+					bs := make([]byte, len(es))
+					allc := true
+					for i, e := range es {
+						if t, isT := e.(*Term); isT && t.IsConst() {
+							bs[i] = byte(t.val)
+						} else {
+							bs[i], allc = '?', false
+						}
+					}
+					return bs, allc
+				}
+			}
+		}
 		var parts []interface{}
 		allc := true
 		for _, e := range p.sliceElems(x) {
